@@ -185,6 +185,40 @@ def main() -> int:
             spec_failures.append({"suite": "homonyms", "default_schema": "dflt", "sql": x["sql"], "qualified_sql": qual_tables(x["sql"]),
                                   "with_default_schema": a, "with_environment_variable": e, "explicitly_qualified": b,
                                   "spec": "default schema S gives the same result as writing every unqualified table name as S.name"})
+    # CTE homonyms: a CTE called like a table that is written WITH a schema while the CTE is in scope (in its own body, in a
+    # later CTE, in the main query) - for every default S incl. the very schema written in the statement ("a name already used
+    # as a qualifier in the script").  A qualified name is never a CTE reference, whatever the default is.
+    cte_tpl = ["insert into tgt with w as (select col, c2 from %(q)s.w where c2 > 0) select col, c2 from w",
+               "create table tgt as with w as (select col, k from u) select w.col, y.c2 from w join %(q)s.w y on w.k = y.k",
+               "with w as (select col from u) select w.col, %(q)s.w.c2 from w, %(q)s.w",
+               "insert into tgt with w as (select col from u), v as (select c2 from %(q)s.w) select w.col, v.c2 from w cross join v",
+               "insert into tgt with w as (select col from %(q)s.w), v as (select col from w) select col from v",
+               "insert into tgt with w as (select col from u) select col from %(q)s.w",
+               "create view tgt as with w as (select col from %(q)s.w union all select col from %(q2)s.w) select col from w",
+               "insert into tgt with w as (select col from u) select x.col from %(q)s.w x where x.k in (select k from w)"]
+    cte_h = []
+    for tpl in cte_tpl:
+        for q, q2 in (("dflt", "s1"), ("s1", "dflt"), ("dflt2", "dflt"), ("s1", "s1")):
+            cte_h.append(tpl % {"q": q, "q2": q2})
+    cte_h = list(dict.fromkeys(cte_h))
+    qual_tu = lambda sql, S: re.sub(r"(?<![\w.])(tgt|u)(?![\w.(])", S + r".\1", sql)
+    dist["cte_homonym_statements"] = 0
+    for S in ("dflt", "s1"):
+        cp = [{"sql": h, "dialect": "ansi", "metadata": None, "config": {}} for h in cte_h]
+        c_scoped = t2tie.summaries([dict(x, config={"DEFAULT_SCHEMA": S}) for x in cp])
+        c_explicit = t2tie.summaries([dict(x, sql=qual_tu(x["sql"], S)) for x in cp])
+        c_env = env_summaries(cp, S)
+        for x, a, b, e in zip(cp, c_scoped, c_explicit, c_env):
+            ck.count()
+            dist["cte_homonym_statements"] += 1
+            if b.startswith("ERR") and a.startswith("ERR"):
+                continue
+            ck.nontriv(("cte-homonym", S, x["sql"]))
+            if a != b or e != b:
+                spec_failures.append({"suite": "cte-homonyms", "default_schema": S, "sql": x["sql"], "qualified_sql": qual_tu(x["sql"], S),
+                                      "with_default_schema": a, "with_environment_variable": e, "explicitly_qualified": b,
+                                      "spec": "default schema S gives the same result as writing every unqualified table name as S.name; "
+                                              "names that are already qualified are unaffected"})
     # no default: the placeholder is used uniformly (= the specification with ds = "")
     spec0 = sqltie.spec_strings(stmts, ds="")
     for s, rec, a, sp in zip(stmts, sqltie.records(stmts), t2tie.summaries(sqltie.records(stmts)), spec0):
